@@ -86,6 +86,7 @@ func register(p *Prop) { registry[p.ID] = p }
 // ShardResult is what a worker writes.
 type ShardResult struct {
 	Shard       int
+	Part        int // a shard is run in several parts when a stalled case had to be taken out (see cmdRun)
 	Evaluations int
 	NonTrivial  []uint64
 	Stats       *Stats
@@ -224,6 +225,9 @@ func cmdWorker(args []string) int {
 	shard := fs.Int("shard", 0, "")
 	nshards := fs.Int("nshards", 1, "")
 	dir := fs.String("dir", ".", "")
+	part := fs.Int("part", 0, "")
+	from := fs.Int("from", 0, "skip the cases of this shard below this number")
+	only := fs.Int("only", -1, "run just this case")
 	_ = fs.Parse(args)
 	p := registry[*prop]
 	if p == nil {
@@ -237,10 +241,27 @@ func cmdWorker(args []string) int {
 		}
 	}
 	total := p.Cases(*tier)
-	sr := &ShardResult{Shard: *shard, Stats: newStats(), Obs: map[string]int{}}
+	sr := &ShardResult{Shard: *shard, Part: *part, Stats: newStats(), Obs: map[string]int{}}
 	seen := map[uint64]bool{}
+	testHang := -1
+	if v, err := strconv.Atoi(os.Getenv("VERIF_TEST_HANG_CASE")); err == nil {
+		testHang = v // self-test of the stall detection: this case never returns (only the first time when ..._ONCE is set)
+	}
 	for i := *shard; i < total; i += *nshards {
+		if *only >= 0 {
+			if i != *shard {
+				break
+			}
+			i = *only
+		} else if i < *from {
+			continue
+		}
 		fmt.Printf("CASE %d\n", i) // unbuffered: survives a process-fatal error
+		if i == testHang && !(os.Getenv("VERIF_TEST_HANG_ONCE") != "" && *only >= 0) {
+			for {
+				time.Sleep(time.Hour)
+			}
+		}
 		c := &CaseCtx{Prop: *prop, Tier: *tier, Seed: *seed, Case: i, Dir: *dir}
 		res := runCase(p, c)
 		ev := res.Evals
@@ -291,11 +312,11 @@ func cmdWorker(args []string) int {
 
 func writeShard(dir string, sr *ShardResult) error {
 	b, _ := json.Marshal(sr)
-	tmp := filepath.Join(dir, fmt.Sprintf("shard-%d.json.tmp", sr.Shard))
+	tmp := filepath.Join(dir, fmt.Sprintf("shard-%d-p%d.json.tmp", sr.Shard, sr.Part))
 	if err := os.WriteFile(tmp, b, 0o644); err != nil {
 		return err
 	}
-	return os.Rename(tmp, filepath.Join(dir, fmt.Sprintf("shard-%d.json", sr.Shard)))
+	return os.Rename(tmp, filepath.Join(dir, fmt.Sprintf("shard-%d-p%d.json", sr.Shard, sr.Part)))
 }
 
 func writeReplay(rf *ReplayFile) string {
@@ -351,44 +372,122 @@ func cmdRun(args []string) int {
 		}
 	}
 
-	type shardOutcome struct {
-		timedOut bool
+	// A case that stalls (its "CASE n" line stays the last line of the worker's log for longer than caseLimit - normal
+	// cases take seconds) is handled like every other "never returns" observation of this harness, in two stages: the
+	// worker is stopped, the case is run again ALONE in a fresh process with twice the limit; only if it stalls again it
+	// is reported (violation "hang"); otherwise the shard continues behind it. The overall watchdog stays as the
+	// inconclusive outcome.
+	caseLimit := 8 * time.Minute
+	if *tier == "thorough" {
+		caseLimit = 40 * time.Minute
+	}
+	if s := os.Getenv("VERIF_CASE_LIMIT_SEC"); s != "" {
+		if v, err := strconv.Atoi(s); err == nil {
+			caseLimit = time.Duration(v) * time.Second
+		}
+	}
+	type partOutcome struct {
+		part     int
+		timedOut bool // overall watchdog
+		stalled  int  // case that stalled (-1: none)
 		exit     int
 	}
-	outcomes := make([]shardOutcome, nshards)
+	lastCase := func(logPath string) int {
+		logb, _ := os.ReadFile(logPath)
+		last := -1
+		for _, line := range strings.Split(string(logb), "\n") {
+			if strings.HasPrefix(line, "CASE ") {
+				if v, e := strconv.Atoi(strings.TrimSpace(line[5:])); e == nil {
+					last = v
+				}
+			}
+		}
+		return last
+	}
+	deadline := time.Now().Add(watchdog)
+	runPart := func(i, part, from, only int, limit time.Duration) partOutcome {
+		out := partOutcome{part: part, stalled: -1}
+		logPath := filepath.Join(dir, fmt.Sprintf("shard-%d-p%d.log", i, part))
+		logf, _ := os.Create(logPath)
+		defer logf.Close()
+		cmd := exec.Command(os.Args[0], "worker", "--prop", *prop, "--tier", *tier, "--seed", fmt.Sprint(*seed),
+			"--shard", fmt.Sprint(i), "--nshards", fmt.Sprint(nshards), "--dir", dir,
+			"--part", fmt.Sprint(part), "--from", fmt.Sprint(from), "--only", fmt.Sprint(only))
+		cmd.Stdout = logf
+		cmd.Stderr = logf
+		cmd.Env = append(os.Environ(), "GOTRACEBACK=all",
+			"GORACE=halt_on_error=0 log_path="+filepath.Join(dir, fmt.Sprintf("race-%d-p%d", i, part)))
+		if err := cmd.Start(); err != nil {
+			out.exit = -1
+			return out
+		}
+		done := make(chan error, 1)
+		go func() { done <- cmd.Wait() }()
+		kill := func() {
+			_ = cmd.Process.Signal(os.Interrupt)
+			time.Sleep(200 * time.Millisecond)
+			_ = cmd.Process.Kill()
+			<-done
+		}
+		seenCase, seenAt := -2, time.Now()
+		tick := time.NewTicker(time.Second)
+		defer tick.Stop()
+		for {
+			select {
+			case err := <-done:
+				if err != nil {
+					out.exit = 1
+					if ee, ok := err.(*exec.ExitError); ok {
+						out.exit = ee.ExitCode()
+					}
+				}
+				return out
+			case <-tick.C:
+				if c := lastCase(logPath); c != seenCase {
+					seenCase, seenAt = c, time.Now()
+				}
+				if time.Now().After(deadline) {
+					kill()
+					out.timedOut = true
+					return out
+				}
+				if seenCase >= 0 && time.Since(seenAt) > limit {
+					kill()
+					out.stalled = seenCase
+					return out
+				}
+			}
+		}
+	}
+	parts := make([][]partOutcome, nshards)
+	hangs := make([][]int, nshards)
+	firstStage := make([]int, nshards)
 	var wg sync.WaitGroup
 	for i := 0; i < nshards; i++ {
 		wg.Add(1)
 		go func(i int) {
 			defer wg.Done()
-			logf, _ := os.Create(filepath.Join(dir, fmt.Sprintf("shard-%d.log", i)))
-			defer logf.Close()
-			cmd := exec.Command(os.Args[0], "worker", "--prop", *prop, "--tier", *tier, "--seed", fmt.Sprint(*seed),
-				"--shard", fmt.Sprint(i), "--nshards", fmt.Sprint(nshards), "--dir", dir)
-			cmd.Stdout = logf
-			cmd.Stderr = logf
-			cmd.Env = append(os.Environ(), "GOTRACEBACK=all",
-				"GORACE=halt_on_error=0 log_path="+filepath.Join(dir, fmt.Sprintf("race-%d", i)))
-			if err := cmd.Start(); err != nil {
-				outcomes[i].exit = -1
-				return
-			}
-			done := make(chan error, 1)
-			go func() { done <- cmd.Wait() }()
-			select {
-			case err := <-done:
-				if err != nil {
-					outcomes[i].exit = 1
-					if ee, ok := err.(*exec.ExitError); ok {
-						outcomes[i].exit = ee.ExitCode()
-					}
+			part, from := 0, 0
+			for {
+				o := runPart(i, part, from, -1, caseLimit)
+				parts[i] = append(parts[i], o)
+				if o.stalled < 0 {
+					return
 				}
-			case <-time.After(watchdog):
-				_ = cmd.Process.Signal(os.Interrupt)
-				time.Sleep(200 * time.Millisecond)
-				_ = cmd.Process.Kill()
-				<-done
-				outcomes[i].timedOut = true
+				n := o.stalled
+				part++
+				o2 := runPart(i, part, 0, n, 2*caseLimit)
+				parts[i] = append(parts[i], o2)
+				if o2.stalled >= 0 {
+					hangs[i] = append(hangs[i], n)
+					return
+				}
+				if o2.timedOut || o2.exit != 0 {
+					return
+				}
+				firstStage[i]++
+				part++
+				from = n + 1
 			}
 		}(i)
 	}
@@ -404,53 +503,67 @@ func cmdRun(args []string) int {
 	var violations []*ReplayFile
 	inconclusive := ""
 	for i := 0; i < nshards; i++ {
-		b, err := os.ReadFile(filepath.Join(dir, fmt.Sprintf("shard-%d.json", i)))
-		var sr ShardResult
-		if err == nil {
-			err = json.Unmarshal(b, &sr)
+		for _, n := range hangs[i] {
+			violations = append(violations, &ReplayFile{Property: *prop, Seed: *seed, Tier: *tier, Case: n, Sig: "hang",
+				Message: fmt.Sprintf("case %d did not finish: its worker stalled for %v, and the case run again alone in a fresh process stalled for %v (cases normally take seconds); the remaining cases of shard %d were not run", n, caseLimit, 2*caseLimit, i)})
 		}
-		if err == nil && !sr.Done {
-			// partial result of a worker that did not finish: keep the violations it had already found
-			violations = append(violations, sr.Violations...)
+		if firstStage[i] > 0 {
+			mergeObs(obs, "case-stalls-not-confirmed-by-the-second-stage", firstStage[i])
 		}
-		if err != nil || !sr.Done {
-			// the worker died: find the last case header in its log
-			logb, _ := os.ReadFile(filepath.Join(dir, fmt.Sprintf("shard-%d.log", i)))
-			last := -1
-			for _, line := range strings.Split(string(logb), "\n") {
-				if strings.HasPrefix(line, "CASE ") {
-					if v, e := strconv.Atoi(strings.TrimSpace(line[5:])); e == nil {
-						last = v
+	}
+	for i := 0; i < nshards; i++ {
+		for _, po := range parts[i] {
+			b, err := os.ReadFile(filepath.Join(dir, fmt.Sprintf("shard-%d-p%d.json", i, po.part)))
+			var sr ShardResult
+			if err == nil {
+				err = json.Unmarshal(b, &sr)
+			}
+			if err == nil && !sr.Done {
+				// partial result of a worker that did not finish: keep the violations it had already found
+				violations = append(violations, sr.Violations...)
+			}
+			if err != nil || !sr.Done {
+				if po.stalled >= 0 {
+					continue // taken care of by the second stage
+				}
+				// the worker died: find the last case header in its log
+				logb, _ := os.ReadFile(filepath.Join(dir, fmt.Sprintf("shard-%d-p%d.log", i, po.part)))
+				last := -1
+				for _, line := range strings.Split(string(logb), "\n") {
+					if strings.HasPrefix(line, "CASE ") {
+						if v, e := strconv.Atoi(strings.TrimSpace(line[5:])); e == nil {
+							last = v
+						}
 					}
 				}
-			}
-			tail := string(logb)
-			if len(tail) > 6000 {
-				tail = tail[len(tail)-6000:]
-			}
-			if outcomes[i].timedOut {
-				inconclusive = fmt.Sprintf("shard %d hit the wall-clock watchdog in case %d", i, last)
-				if p.ID == "C19" {
-					violations = append(violations, &ReplayFile{Property: *prop, Seed: *seed, Tier: *tier, Case: last, Sig: "hang", Message: "worker did not finish within the watchdog: " + tail})
+				tail := string(logb)
+				if len(tail) > 6000 {
+					tail = tail[len(tail)-6000:]
 				}
+				if po.timedOut {
+					inconclusive = fmt.Sprintf("shard %d hit the wall-clock watchdog in case %d", i, last)
+					if p.ID == "C19" {
+						violations = append(violations, &ReplayFile{Property: *prop, Seed: *seed, Tier: *tier, Case: last, Sig: "hang", Message: "worker did not finish within the watchdog: " + tail})
+					}
+					continue
+				}
+				violations = append(violations, &ReplayFile{Property: *prop, Seed: *seed, Tier: *tier, Case: last, Sig: "crash",
+					Message: fmt.Sprintf("worker process died (exit %d) while running case %d; log tail:\n%s", po.exit, last, tail)})
 				continue
 			}
-			violations = append(violations, &ReplayFile{Property: *prop, Seed: *seed, Tier: *tier, Case: last, Sig: "crash",
-				Message: fmt.Sprintf("worker process died (exit %d) while running case %d; log tail:\n%s", outcomes[i].exit, last, tail)})
-			continue
+			evals += sr.Evaluations
+			stats.merge(sr.Stats)
+			for k, v := range sr.Obs {
+				mergeObs(obs, k, v)
+			}
+			for _, h := range sr.NonTrivial {
+				nontrivial[h] = true
+			}
+			if len(samples) < 3 {
+				samples = append(samples, sr.Samples...)
+			}
+			violations = append(violations, sr.Violations...)
 		}
-		evals += sr.Evaluations
-		stats.merge(sr.Stats)
-		for k, v := range sr.Obs {
-			mergeObs(obs, k, v)
-		}
-		for _, h := range sr.NonTrivial {
-			nontrivial[h] = true
-		}
-		if len(samples) < 3 {
-			samples = append(samples, sr.Samples...)
-		}
-		violations = append(violations, sr.Violations...)
 	}
 	if len(samples) > 3 {
 		samples = samples[:3]
